@@ -232,3 +232,6 @@ func ExploreSchedules(r *Report, bound int, maxRuns int, mk func(s *Sched) (thre
 		}
 	}
 }
+
+// Goid returns the id of the calling goroutine (actor attribution in concurrent checks).
+func Goid() int64 { return goid() }
